@@ -1,9 +1,9 @@
-(* C14 — real interval operations contain every exact result: + - neg pos * square abs / sqrt, finite endpoints of any
+(* C14 — real interval operations contain every exact result: + - neg pos * square abs / sqrt x^n (n>0), finite endpoints of any
    length, every precision (incl. exact where the operation allows it), every pair of member reals.  The result is again
    a valid interval.  Not covered by theorems: infinite endpoints, division by an interval containing 0 (result is the
-   whole line), pow and the elementary functions (decided by correspondence / certificates). *)
+   whole line), negative powers and the elementary functions (decided by correspondence / certificates). *)
 From Coq Require Import ZArith Reals.
-From MP Require Import Algo.Base Algo.Libmpf Algo.Libmpi Spec.Mpf Spec.Round Proofs.IvCmp Proofs.IvContain Proofs.IvMul Proofs.IvDiv Proofs.IvSqrt.
+From MP Require Import Algo.Base Algo.Libmpf Algo.Libmpi Spec.Mpf Spec.Round Proofs.IvCmp Proofs.IvContain Proofs.IvMul Proofs.IvDiv Proofs.IvSqrt Proofs.IvPow.
 Open Scope Z_scope.
 
 Theorem C14_add_contains : forall s t prec x y, valid_iv s -> valid_iv t -> 0 <= prec -> in_iv s x -> in_iv t y ->
@@ -38,6 +38,10 @@ Print Assumptions C14_div_contains.
 Theorem C14_sqrt_contains : forall s prec x, valid_iv s -> (0 <= rv (fst s))%R -> 0 < prec -> in_iv s x ->
   exists r, mpi_sqrt s prec = Ok r /\ in_iv r (sqrt x) /\ valid_iv r.
 Proof. exact mpi_sqrt_contains. Qed.
+Theorem C14_pow_contains : forall s p prec x, valid_iv s -> 0 < prec -> in_iv s x ->
+  exists r, mpi_pow_int_pos s (Zpos p) prec = Ok r /\ in_iv r (x ^ Pos.to_nat p) /\ valid_iv r.
+Proof. exact mpi_pow_int_pos_contains. Qed.
+Print Assumptions C14_pow_contains.
 (* non-vacuity: a mixed-sign product takes the min/max branch *)
 Example C14_mixed : mpi_mul (Mpf 1 1 0 1, Mpf 0 1 1 1) (Mpf 1 3 0 2, Mpf 0 1 0 1) 53 = (Mpf 1 3 1 2, Mpf 0 3 0 2).  (* [-1,2]*[-3,1] = [-6,3] *)
 Proof. vm_compute. reflexivity. Qed.
